@@ -832,7 +832,9 @@ ALIAS_SITES = ['Series', 'Series_index', 'Frame_2d', 'Frame_index', 'Frame_colum
                'Frame_from_concat_arrays', 'Index', 'IndexDate', 'IndexHierarchy_from_labels_array', 'IndexHierarchy_from_product', 'TypeBlocks_from_blocks',
                'Series_assign', 'Frame_assign', 'Series_fillna', 'Frame_insert', 'Series_reindex_own', 'Frame_from_records_array', 'Series_from_concat',
                'Frame_from_overlay', 'Series_isin', 'IndexHierarchy_from_index_items', 'Frame_bloc_assign', 'Series_from_items',
-               'Frame_from_structured_array', 'Frame_from_structured_array_2d', 'Frame_from_records_structured']
+               'Frame_from_structured_array', 'Frame_from_structured_array_2d', 'Frame_from_records_structured',
+               'Frame_from_structured_array_dtypes_partial', 'Frame_from_structured_array_dtypes_list', 'Frame_from_structured_array_index',
+               'Frame_from_structured_array_consolidated', 'Frame_from_records_structured_dtypes_partial']
 
 
 def _other_value(arr):
@@ -951,6 +953,25 @@ def _check_alias(case, ctx):
             rec['q'] = arr[::-1]
             args = [rec]
             c = sf.Frame.from_structured_array(rec) if site == 'Frame_from_structured_array' else sf.Frame.from_records(rec)
+        elif site.startswith('Frame_from_structured_array_') and site != 'Frame_from_structured_array_2d' or site == 'Frame_from_records_structured_dtypes_partial':
+            # options that re-type, consolidate or move SOME fields: every other field must still be detached from the caller's array
+            rec = np.empty(n, dtype=[('p', arr.dtype), ('q', arr.dtype), ('r', arr.dtype)])
+            rec['p'] = arr
+            rec['q'] = arr[::-1]
+            rec['r'] = arr
+            args = [rec]
+            other = object if arr.dtype.kind != 'O' else str
+            if site == 'Frame_from_structured_array_dtypes_partial':
+                c = sf.Frame.from_structured_array(rec, dtypes={'q': other})
+            elif site == 'Frame_from_structured_array_dtypes_list':
+                c = sf.Frame.from_structured_array(rec, dtypes=[None, other, None])
+            elif site == 'Frame_from_structured_array_index':
+                rec['p'] = np.arange(n).astype(arr.dtype) if arr.dtype.kind in 'iuf' else arr
+                c = sf.Frame.from_structured_array(rec, index_depth=1, dtypes={'r': other})
+            elif site == 'Frame_from_structured_array_consolidated':
+                c = sf.Frame.from_structured_array(rec, consolidate_blocks=True, dtypes={'p': other})
+            else:
+                c = sf.Frame.from_records(rec, dtypes={'q': other})
         elif site == 'Frame_from_structured_array_2d':
             arr = np.array(arr.reshape(n, 1).repeat(2, axis=1))
             args = [arr]
